@@ -21,7 +21,9 @@ TClosed == /\ Ev("ho.listener_closed") /\ CloseProxy
 \* the hand-off ran on the closed channel; what the user's socket saw afterwards is the state of the connection
 TUserEnd == /\ Ev("ho.user_end") /\ st[C] = "accepted" /\ ~chOpen
             /\ st' = [st EXCEPT ![C] = IF E.closed THEN "closed" ELSE "orphan"] /\ UNCHANGED chOpen
-            /\ bad' = bad \cup F(E.closed, "user connection left open without a peer after the hand-off found the proxy's listener gone")
+            /\ bad' = bad \cup F(E.closed \/ ("other_started" \in DOMAIN E /\ E.other_started), "user connection left open without a peer after the hand-off found the proxy's listener gone")
+                          \cup F(~("other_started" \in DOMAIN E /\ E.other_started),
+                                 "a connection whose credentials were checked for one route was handed to the proxy of another route (its owner closed while the connection was under way)")
 TNote == Ev("ho.note") /\ UNCHANGED vars /\ bad' = bad \cup {<<"scenario could not run", l>>}
 TNext == TReset \/ THook \/ TControl \/ TParked \/ TClosed \/ TUserEnd \/ TNote
 TSpec == TInit /\ [][TNext]_<<vars, l, bad>>
